@@ -1,4 +1,4 @@
-\* TODO-KNOWN-FINDING C42-limbo-stale-block: searches the model for states violating the strict
+\* KNOWN-FINDING (open, known_findings.json) C42-limbo-stale-block: searches the model for states violating the strict
 \* retention property and prints the behaviours leading there (tag LIMBO).
 SPECIFICATION MCSpec
 CONSTANTS Accts = {"a1"}
